@@ -857,3 +857,72 @@ Example ex_accepts_hijack :
   /\ accepts TCP [StInvoke 0; Notify; SAcceptOk 1; Req 1; HEnter 1; HExitHj 1; Req 1] = inl 6
   /\ accepts UDP [StInvoke 0; Notify; SPacket 1; HEnter 1; HExitHj 1] = inl 4.
 Proof. vm_compute. repeat split. eexists; reflexivity. Qed.
+
+(* ------------------------------------------- input that never reaches a handler *)
+(* a datagram shorter than a DNS header: the serve loop goes on, no worker, the
+   WaitGroup untouched - nothing Shutdown would have to wait for *)
+Lemma short_datagram_no_worker s s' p :
+  step s (SPacketShort p) = Some s' ->
+  md s = UDP /\ serve s = SRead /\ serve s' = SLoop /\ workers s' = workers s /\ wg s' = wg s /\
+  ph s' = ph s /\ shut s' = shut s /\ sds s' = sds s /\ pcdl s' = pcdl s.
+Proof.
+  intros H. cbn [step] in H. destruct (serve s) eqn:Es; try discriminate.
+  destruct (md s) eqn:Em; try discriminate. destruct (negb (pcdl s)); [|discriminate].
+  inversion H; subst; clear H. cbn. repeat split.
+Qed.
+
+(* a message the server drops or rejects by itself: the worker had a request in
+   hand (handler not entered); afterwards no handler can be entered for it and
+   no handler reply written; on UDP its only step is to finish (wg.Done), on TCP
+   the connection loop goes on with its srv.isStarted() test *)
+Lemma dropped_message_no_handler s s' c :
+  step s (WDrop c) = Some s' ->
+  (exists w, find_w c (workers s) = Some w /\ w_pc w = CGot) /\
+  step s' (HEnter c) = None /\ step s' (Reply c) = None /\ step s' (HExit c) = None /\
+  wg s' = wg s /\ ph s' = ph s /\ shut s' = shut s /\
+  (md s = UDP -> exists s'', step s' (WFinish c) = Some s'' /\ wg s'' = pred (wg s') /\
+                 exists w'', find_w c (workers s'') = Some w'' /\ w_pc w'' = CDone) /\
+  (md s = TCP -> exists s'', step s' (WCheck c) = Some s'').
+Proof.
+  intros H. cbn [step] in H.
+  apply wstep_inv in H. destruct H as (w & Hf & Hpc & _ & Hs & _). subst s'.
+  set (p := match md s with TCP => CCheck | UDP => CFin end) in *.
+  pose proof (upd_w_find_same c (set_pc p) _ w (keeps_id_set_pc p) Hf) as Hf'.
+  split; [eauto|].
+  assert (Hno : forall from g f, from <> p ->
+            wstep (set_workers s (upd_w c (set_pc p) (workers s))) c from g f = None).
+  { intros from g f Hn. unfold wstep. cbn [workers set_workers]. rewrite Hf'. cbn [w_pc set_pc].
+    destruct p, from; try reflexivity; congruence. }
+  assert (Hp : p <> CGot /\ p <> CHandler) by (unfold p; destruct (md s); split; discriminate).
+  destruct Hp as [Hp1 Hp2].
+  repeat split; try (cbn [step]; apply Hno; congruence).
+  - intros Em. unfold p in *. rewrite Em in *. cbn [step].
+    rewrite (wstep_some _ c CFin (fun _ => true) (set_pc CDone) (set_pc CFin w)); [|exact Hf'|reflexivity|discriminate|reflexivity].
+    eexists. split; [reflexivity|]. split; [reflexivity|].
+    exists (set_pc CDone (set_pc CFin w)). split; [|reflexivity]. cbn [workers set_wg set_workers].
+    apply (upd_w_find_same c (set_pc CDone) _ _ (keeps_id_set_pc CDone) Hf').
+  - intros Em. unfold p in *. rewrite Em in *. cbn [step].
+    rewrite (wstep_some _ c CCheck (fun _ => true) _ (set_pc CCheck w)); [|exact Hf'|reflexivity|discriminate|reflexivity].
+    eexists. reflexivity.
+Qed.
+
+(* short datagrams and dropped / rejected messages next to an ordinary query:
+   Shutdown returns nil after the one handler that was started *)
+Example ex_ignored_input_run :
+  exists s, run (init UDP) [StInvoke 0; StAtomic 0; Notify; SCheck; SSetDlL; SPacketShort 1; SCheck; SSetDlL;
+                            SPacket 2; SSpawn; WDrop 2; WFinish 2; SCheck; SSetDlL; SPacket 3; SSpawn; HEnter 3;
+                            SCheck; SSetDlL; SPacketShort 4; SdInvoke 0; SdAtomic 0; SCheck; Reply 3; HExit 3; WFinish 3;
+                            SWaitDone; SdReturn 0 ResNil; SReturn RNil] = Some s /\
+            In (0, SdDone ResNil) (sds s) /\ serve s = SReturned RNil /\ wg s = 0 /\ length (workers s) = 2.
+Proof. match goal with |- exists s, ?r = Some s /\ _ => remember r as rr eqn:E; vm_compute in E; subst rr end. eexists. split; [reflexivity|]. cbn. auto. Qed.
+Example ex_accepts_ignored_input :
+  (exists n, accepts UDP [StInvoke 0; Notify; SPacketShort 1; SPacket 2; WDrop 2; SPacket 3; HEnter 3; SPacketShort 4;
+                          SdInvoke 0; SReadErr; Reply 3; HExit 3; SdReturn 0 ResNil; SReturn RNil] = inr (Some n))
+  /\ (exists n, accepts TCP [StInvoke 0; Notify; SAcceptOk 1; Req 1; WDrop 1; Req 1; HEnter 1; Reply 1; HExit 1; Req 1; WDrop 1;
+                             SdInvoke 0; ReadErr 1; WClose 1; SdReturn 0 ResNil; SReturn RNil] = inr (Some n))
+  /\ accepts UDP [StInvoke 0; Notify; SPacketShort 1; HEnter 1] = inl 3
+  /\ accepts UDP [StInvoke 0; Notify; SPacket 1; WDrop 1; HEnter 1] = inl 4
+  /\ accepts UDP [StInvoke 0; Notify; SPacket 1; SdInvoke 0; SReadErr; SdReturn 0 ResNil] = inl 5
+  /\ accepts TCP [StInvoke 0; Notify; SAcceptOk 1; SPacketShort 1] = inl 3
+  /\ accepts TCP [StInvoke 0; Notify; SAcceptOk 1; Req 1; WDrop 1; Reply 1] = inl 5.
+Proof. vm_compute. repeat split; eexists; reflexivity. Qed.
